@@ -55,10 +55,16 @@ instance (b : Bin) : Decidable b.WF := by unfold Bin.WF; infer_instance
 /-- the bits of the binary's range -/
 def Bin.bits (b : Bin) : Bits := slice b.src b.start b.len
 
+/-- the Go type that carries a jq integer: `int` or `*big.Int`.  gojq keeps them apart (normalize.go:18-34: a literal
+    is `int` iff it fits; operator.go:477-487: int−int stays `int` unless it overflows, anything with a `*big.Int`
+    operand is `*big.Int`, results are not normalised) and binary.go:104-119 has one fast-path branch per type. -/
+inductive NumRep | int | big
+deriving Repr, DecidableEq, Inhabited
+
 inductive Val
   | bin (b : Bin)
   | dv (b : Bin)                 -- a decode value: only its ToBinary() is modelled (decode.go:449)
-  | num (n : Int)
+  | num (n : Int) (rep : NumRep)
   | str (bs : List UInt8)        -- a Go string: raw bytes, not necessarily valid UTF-8
   | arr (vs : List Val)
   | null
@@ -103,7 +109,10 @@ def byteBits (n : Int) : Outcome Bits :=
 /-- the fast path of binary.go:97-129: `some bytes` iff every member is a 0..255 number or a string -/
 def fastPath : List Val → Option (List UInt8)
   | [] => some []
-  | .num n :: vs => if 0 ≤ n ∧ n ≤ 255 then (fastPath vs).map (UInt8.ofNat n.toNat :: ·) else none
+  | .num n .int :: vs =>                                     -- case int: `ev >= 0 && ev <= 255`
+    if 0 ≤ n ∧ n ≤ 255 then (fastPath vs).map (UInt8.ofNat n.toNat :: ·) else none
+  | .num n .big :: vs =>                                     -- case *big.Int: `ev.Cmp(0) >= 0 && ev.Cmp(255) <= 0`
+    if n ≥ 0 ∧ n ≤ 255 then (fastPath vs).map (UInt8.ofNat n.toNat :: ·) else none
   | .str s :: vs => (fastPath vs).map (s ++ ·)
   | _ :: _ => none
 
@@ -113,7 +122,7 @@ def toBR (inArray : Bool) : Val → Outcome Bits
   | .bin b => rangeBits b.src b.start b.len                   -- :57-62 (pad ignored)
   | .dv b => rangeBits b.src b.start b.len
   | .str s => .ok (bytesToBits s)
-  | .num n => if inArray then byteBits n else numBits n
+  | .num n _ => if inArray then byteBits n else numBits n      -- toBigInt: both types
   | .arr vs =>
     match fastPath vs with
     | some bytes => .ok (bytesToBits bytes)
@@ -184,7 +193,7 @@ def Bin.index (b : Bin) (i : Int) : Outcome Val :=
   else do
     let bits ← rangeBits b.src (b.start + i2.toNat * b.unit) b.unit     -- toBytesBuffer
     let extraBits := (8 - b.unit % 8) % 8
-    pure (.num ((ofBitsBE (padR8 bits) / 2 ^ extraBits : Nat)))   -- big.Int Rsh
+    pure (.num ((ofBitsBE (padR8 bits) / 2 ^ extraBits : Nat)) .big)   -- new(big.Int).Rsh
 
 /-- sliceJQValue + JQValueSlice (binary.go:370-379) -/
 def Bin.slice (b : Bin) (s e : Option Int) : Bin :=
@@ -200,19 +209,19 @@ deriving Repr, DecidableEq, Inhabited
 def Bin.key (b : Bin) : Key → Val
   | .bits => if b.unit = 1 then .bin b else .bin { src := b.src, start := b.start, len := b.len, unit := 1, pad := 0 }
   | .bytes => if b.unit = 8 then .bin b else .bin { src := b.src, start := b.start, len := b.len, unit := 8, pad := 0 }
-  | .size => .num (b.len / b.unit : Nat)
-  | .start => .num (b.start / b.unit : Nat)
+  | .size => .num (b.len / b.unit : Nat) .big
+  | .start => .num (b.start / b.unit : Nat) .big
   | .stop =>
     let stop := b.start + b.len
     let su := stop / b.unit
-    .num ((if stop % b.unit ≠ 0 then su + 1 else su : Nat))
-  | .unit => .num b.unit
+    .num ((if stop % b.unit ≠ 0 then su + 1 else su : Nat)) .big
+  | .unit => .num b.unit .int
 
 /-- JQValueToNumber (binary.go:428-435) -/
 def Bin.toNumber (b : Bin) : Outcome Val := do
   let bits ← rangeBits b.src b.start b.len
   let extraBits := (8 - b.len % 8) % 8
-  pure (.num ((ofBitsBE (padR8 bits) / 2 ^ extraBits : Nat)))   -- big.Int Rsh
+  pure (.num ((ofBitsBE (padR8 bits) / 2 ^ extraBits : Nat)) .big)   -- new(big.Int).Rsh
 
 /-- JQValueToGoJQ (binary.go:463-469), used by gojq's `tostring` -/
 def Bin.toStr (b : Bin) : Outcome Val := do
@@ -233,6 +242,17 @@ def toHexOp (c : Val) : Outcome Val := do
 
 /-! ### the expression language of the property -/
 
+def maxInt : Int := 9223372036854775807
+
+/-- Go type of an integer literal `n` / `(-n)` (normalize.go:19; unary minus keeps the type) -/
+def litRep (n : Int) : NumRep := if n.natAbs ≤ maxInt.toNat then .int else .big
+
+/-- `l - r` (operator.go:477-487) -/
+def subNum (l : Int) (lr : NumRep) (r : Int) (rr : NumRep) : Val :=
+  match lr, rr with
+  | .int, .int => if -maxInt - 1 ≤ l - r ∧ l - r ≤ maxInt then .num (l - r) .int else .num (l - r) .big
+  | _, _ => .num (l - r) .big
+
 inductive E
   | str (bs : List UInt8)
   | int (n : Int)
@@ -250,6 +270,7 @@ inductive E
   | toString (e : E)
   | explode (e : E)
   | toHex (e : E)
+  | sub (k : Int) (e : E)        -- `e - k`, k an integer literal: how fq's own numbers (`*big.Int`) become negative / small
 deriving Repr, Inhabited
 
 def onBin (v : Val) (f : Bin → Outcome Val) : Outcome Val :=
@@ -260,7 +281,7 @@ def onBin (v : Val) (f : Bin → Outcome Val) : Outcome Val :=
 mutual
 def eval : E → Outcome Val
   | .str bs => .ok (.str bs)
-  | .int n => .ok (.num n)
+  | .int n => .ok (.num n (litRep n))
   | .null => .ok .null
   | .bool b => .ok (.bool b)
   | .obj => .ok .obj
@@ -287,7 +308,7 @@ def eval : E → Outcome Val
     | .error e => .error e
   | .length e =>
     match eval e with
-    | .ok v => onBin v (fun b => .ok (.num b.length))
+    | .ok v => onBin v (fun b => .ok (.num b.length .int))
     | .error e => .error e
   | .toNumber e =>
     match eval e with
@@ -304,6 +325,12 @@ def eval : E → Outcome Val
   | .toHex e =>
     match eval e with
     | .ok v => toHexOp v
+    | .error e => .error e
+  | .sub k e =>
+    match eval e with
+    | .ok (.num n r) => .ok (subNum n r k (litRep k))
+    | .ok .null => .error .jqType                            -- "cannot subtract: null and number"
+    | .ok _ => .error .unsup
     | .error e => .error e
 def evalList : List E → Outcome (List Val)
   | [] => .ok []
@@ -323,7 +350,7 @@ def Val.AllWF : Val → Prop
   | .bin b => b.WF
   | .dv b => b.WF
   | .arr vs => Val.AllWFList vs
-  | .num _ => True
+  | .num _ _ => True
   | .str _ => True
   | .null => True
   | .bool _ => True
@@ -346,6 +373,7 @@ def E.DvWF : E → Prop
   | .toString e => E.DvWF e
   | .explode e => E.DvWF e
   | .toHex e => E.DvWF e
+  | .sub _ e => E.DvWF e
   | .str _ => True
   | .int _ => True
   | .null => True
@@ -377,7 +405,7 @@ def showVal : Val → String
     | .ok bits => s!"b:{b.unit}:{b.start}:{b.len}:{hexOfBits bits}"
     | .error e => showErr e
   | .dv _ => "err:UNSUP"
-  | .num n => s!"n:{n}"
+  | .num n _ => s!"n:{n}"
   | .str s => "s:" ++ (if s.isEmpty then "-" else hexOfBytes s)
   | .arr vs => "a:[" ++ showVals vs ++ "]"
   | .null => "z"
